@@ -65,3 +65,28 @@ Lemma witness_sep_none :
   forallb (fun p => strs_eqb (wsrow_toks (mk_wsrow p)) p) ex_blast_rows = true /\
   forallb (wsrow_simple_ok Mmseqs) (map mk_wsrow ex_mm_rows) = true.
 Proof. repeat split; vm_compute; reflexivity. Qed.
+
+(* every column of the header list is a key of the format metadata, whatever the tokens are (an empty field between two
+   separators is the empty string and is kept) *)
+Lemma row_keys d ftype hs toks f : nodup_str (map hname hs) = true -> row_feature d ftype hs toks = Ok f ->
+  forall hd, In hd hs -> exists v, In v toks /\ assoc (hname hd) (f_fmt f) = Some (conv (htype hd) v).
+Proof.
+  intros ND R hd I. destruct (row_to_feature d ftype hs toks f ND R) as (L & C & _).
+  destruct (In_nth_error _ _ I) as (i & Hi).
+  assert (LT : (i < length toks)%nat) by (rewrite L; apply nth_error_Some; congruence).
+  destruct (nth_error toks i) as [v|] eqn:Hv; [|apply nth_error_None in Hv; lia].
+  exists v. split; [eapply nth_error_In; exact Hv|]. eapply C; eauto.
+Qed.
+(* the blank-title witness: BLAST outfmt 6 row whose subject title (third of nine columns) is empty *)
+Definition ex_blank_hs : list hdr :=
+  hs_of (headers_from false Blast (split_ws (bs "qseqid sseqid stitle qstart qend sstart send evalue bitscore"%bs))).
+Definition ex_blank_row : list str :=
+  [bs "q1"%bs; bs "chr2"%bs; []; bs "5"%bs; bs "80"%bs; bs "2075"%bs; bs "2000"%bs; bs "0.001"%bs; bs "40.1"%bs].
+Lemma witness_blank_field :
+  row_ok Blast x09 ex_blank_row = true /\
+  match row_feature Blast None ex_blank_hs ex_blank_row with
+  | Ok f => assoc (bs "stitle"%bs) (f_fmt f) = Some (AStr []) /\ length (f_fmt f) = 9%nat /\
+            (f_start f, f_stop f, f_strand f) = (1999%Z, 2075%Z, bs "-"%bs)
+  | Err _ => False
+  end.
+Proof. split; [vm_compute; reflexivity|]. vm_compute. repeat split; reflexivity. Qed.
